@@ -183,8 +183,11 @@ func (matrix *DenseInt8Matrix) SetIdentity() {
   }
 }
 func (matrix *DenseInt8Matrix) Reset() {
-  for i := 0; i < len(matrix.values); i++ {
-    matrix.values[i] = 0.0
+  n, m := matrix.Dims()
+  for i := 0; i < n; i++ {
+    for j := 0; j < m; j++ {
+      matrix.values[matrix.index(i, j)] = 0.0
+    }
   }
 }
 func (matrix *DenseInt8Matrix) Row(i int) Vector {
